@@ -165,5 +165,6 @@ def first_diff(A, B):
 
 
 def short(p, n=160):
-    s = repr(p)
+    from .poly import brief
+    s = brief(p, 4, 2)
     return s if len(s) <= n else s[: n - 3] + "..."
